@@ -4,6 +4,25 @@ from ..core import Oracle, Violation
 from .. import observe, pools
 
 
+def bare_name_with_colon(d):
+    from prov.identifier import QualifiedName
+    from prov.model import Literal
+
+    def bad(q):
+        return isinstance(q, QualifiedName) and not q.namespace.prefix and ":" in q.localpart
+
+    for c in [d] + list(d.bundles):
+        if c is not d and bad(c.identifier):
+            return True
+        for r in c.get_records():
+            if bad(r.identifier):
+                return True
+            for a, v in r.attributes:
+                if bad(a) or bad(v) or (isinstance(v, Literal) and bad(v.datatype)):
+                    return True
+    return False
+
+
 class RoundTrip(Oracle):
     # reach probes that must not be stuck at zero (else the workload is not reaching what
     # the design says it reaches): the check then exits 2
@@ -71,6 +90,11 @@ class RoundTrip(Oracle):
         d = w.cont(op[2])
         self.count("roundtrips")
         ok, why = self.eligible(d)
+        if ok and bare_name_with_colon(d):
+            # a name in a default namespace whose local part contains ':' prints as
+            # "x:y", which every reader must take for prefix:local (C03 sets the same names
+            # aside): no textual format can express it
+            ok, why = False, "bare-local-name-with-colon"
         if not ok:
             self.count("ineligible")
             self.probe("ineligible_" + why)
